@@ -318,6 +318,14 @@ impl ZmtpEngine {
           );
           return;
         }
+        // ZMTP/2.0 has no security handshake: never downgrade when a mechanism is required.
+        if self.config.security_enabled {
+          self.fail(
+            out,
+            ZmqError::ProtocolViolation("ZMTP/2.0 peer rejected: a security mechanism is configured".into()),
+          );
+          return;
+        }
         // The v2 socket-type lives at byte 11; wait for the full 12-byte header.
         if self.network_read_accumulator.len() < V2_GREETING_LENGTH {
           return;
